@@ -58,7 +58,7 @@ $(B)/sk/%.o: simkernel/%.cpp
 $(B)/harness/%.o: harness/%.cpp
 	@mkdir -p $(dir $@)
 	@echo "CXX $<"
-	@$(CXX) $(COMMON) $(SAN_HARN) -MMD -MP -c $< -o $@
+	@$(CXX) $(COMMON) $(SAN_HARN) -DREPO_ROOT='"$(REPO)"' -MMD -MP -c $< -o $@
 
 # worlds see private members of repository classes (layout is unaffected); the wrapper that
 # includes src/main.cpp is a repository translation unit and gets the repository flags.
